@@ -127,6 +127,7 @@ func runBFS(bin, scratch string, c bfsCfg) (*bfsOut, error) {
 	}
 	out := &bfsOut{PerEvent: map[string]int{}, Outcomes: map[string]int{}, Info: map[string]int{}, Exhaustive: true}
 	seen := map[string]bool{}
+	violSeen := map[string]bool{}
 	level := c.Roots
 	if len(level) == 0 {
 		level = [][]string{{}}
@@ -237,6 +238,16 @@ func runBFS(bin, scratch string, c bfsCfg) (*bfsOut, error) {
 				out.PerEvent[evClass(h[len(h)-1])]++
 			}
 			if seen[r.Key] {
+				// a transition into a known state is still a checked transition: its oracle
+				// verdict counts (the state key need not capture what the oracle observed, e.g.
+				// a key computed from the reference model)
+				if len(r.Viol) > 0 {
+					vk := r.Key + "|" + strings.Join(r.Viol, "|")
+					if !violSeen[vk] {
+						violSeen[vk] = true
+						out.Violations = append(out.Violations, violation{Hist: h, Viol: r.Viol, Known: r.KnownTags, Detail: r.Detail})
+					}
+				}
 				continue
 			}
 			seen[r.Key] = true
@@ -256,6 +267,7 @@ func runBFS(bin, scratch string, c bfsCfg) (*bfsOut, error) {
 				out.Samples = append(out.Samples, h)
 			}
 			if len(r.Viol) > 0 {
+				violSeen[r.Key+"|"+strings.Join(r.Viol, "|")] = true
 				out.Violations = append(out.Violations, violation{Hist: h, Viol: r.Viol, Known: r.KnownTags, Detail: r.Detail})
 				known := len(r.KnownTags) > 0
 				for _, t := range r.KnownTags {
